@@ -18,6 +18,7 @@ for d in sorted(glob.glob(os.path.join(R, 'seeded', '*'))):
     summ = str(m.get('summary', '')).replace('\n', ' ').replace('|', '/')
     fd = m.get('first_delivery_quick_checks'); own = os.path.basename(d)[:3]
     first = "missed by %s (check extended since)" % own if fd and fd.get(own) != 'DETECTED' else "missed by %s (check extended since)" % own if os.path.basename(d) in ('C06_1', 'C19_1') else "reported"
+    if m.get('extended_before_first_run'): first = "extended from the agent's report before the first run"
     rows.append("| `seeded/%s` - %s | %s | %s | %s pass | %s | %s | %s |" % (os.path.basename(d), summ[:200], m.get('property', '?'), need[:220], m.get('confirmed_by_me', {}).get('suite_tests_passing_with_change', '?'), ', '.join(det) or '-', ', '.join(mis) or '-', first))
 seeded = '\n'.join(rows)
 rows = ["| id | level | tier of the committed evidence | cases | distinct non-trivial | wall s |", "|---|---|---|---|---|---|"]
